@@ -21,6 +21,7 @@ Built on the aggregator library `Otel.C02.Model` (AMap, `limitAttr`, Sum, PSum, 
   matches nothing.
 -/
 import Otel.C02.Model
+import Otel.C12.Glob
 namespace Otel.C12
 open Otel.C02
 
@@ -83,9 +84,13 @@ structure Inst where
 deriving Repr, BEq, DecidableEq
 
 /-- the meters of a history: (scope name id, version id, schema URL id); 0 = "" for version and schema.
-0 = {"c12"}, 1 = {"lib1","v1","s1"}, 2 = {"lib1","v2","s1"}, 3 = {"lib2","v1","s2"} -/
+0 = {"c12"}, 1 = {"lib1","v1","s1"}, 2 = {"lib1","v2","s1"}, 3 = {"lib2","v1","s2"}; 4 and 5 are {"lib1","v1","s1"}
+again but with instrumentation-scope ATTRIBUTES {k=1} / {k=2}: distinct meters (the meter cache is keyed by the whole
+scope) that no view criterion can tell apart from meter 1 (`matchesScope` reads name, version and schema URL only) -/
 def scopeAttrs : Nat → Nat × Nat × Nat
   | 1 => (2, 1, 1)
+  | 4 => (2, 1, 1)
+  | 5 => (2, 1, 1)
   | 2 => (2, 2, 1)
   | 3 => (3, 1, 2)
   | _ => (1, 0, 0)
@@ -101,23 +106,26 @@ def Name.norm : Name → Name
   | .inst j => .inst j
   | .ren k _ => .ren k false
 
-/-- name criterion: none, exact "i<j>", "*", "i?" -/
+/-- name criterion: none, exact "i<j>", "*", "i?", or ANY criterion string (runes) -/
 inductive NamePat where
-  | none | exact (j : Nat) | star | quest
+  | none | exact (j : Nat) | star | quest | glob (p : List Nat)
 deriving Repr, BEq, DecidableEq
 
-def NamePat.wild : NamePat → Bool
-  | .star | .quest => true
-  | _ => false
+/-- the criterion string -/
+def NamePat.text : NamePat → List Nat
+  | .none => []
+  | .exact j => Glob.instName j
+  | .star => [Glob.star]
+  | .quest => [105, Glob.qm]
+  | .glob p => p
 
-/-- regexp matching of the two generated wildcard patterns against the generated names "i<j>"
-("i?" needs a one-character index) -/
-def NamePat.matches (p : NamePat) (j : Nat) : Bool :=
-  match p with
-  | .none => true
-  | .exact j' => j' == j
-  | .star => true
-  | .quest => decide (j < 10)
+/-- `strings.ContainsAny(criteria.Name, "*?")` -/
+def NamePat.wild (p : NamePat) : Bool := p.text.any Glob.isWild
+
+/-- the name part of `NewView`'s match function against the instrument name "i<j>": `Glob.nameMatch` — the
+wildcard → regexp translation of view.go:67-71 followed by the regexp match, or `matchesName` when the criterion has
+no wildcard (an absent criterion is the empty string). -/
+def NamePat.matches (p : NamePat) (j : Nat) : Bool := Glob.nameMatch p.text (Glob.instName j)
 
 inductive AggSel where
   | dflt | drop | sum | last | explicit | expo
@@ -471,6 +479,12 @@ inductive Op where
   | obs (j : Nat) (a : CSet) (x : Int)
   | clear
   | col (r : Nat)
+  /-- instrument `j` is created NOW (between measurements / collections) instead of before the first operation.  The
+  model creates every instrument up front: for instruments that are created in list order this is observationally
+  the same — streams are cached and listed in creation order either way, a stream without measurements reports
+  nothing, and the driver rejects lines that measure an instrument before its creation — so this step changes
+  nothing here; the differential harness checks that claim against the SDK. -/
+  | create (j : Nat)
 deriving Repr
 
 def Sys.init (limit : Nat) (tps : List Temporality) (views : List View) (insts : List Inst) : Sys :=
@@ -481,10 +495,21 @@ def isAsync (insts : List Inst) (j : Nat) : Bool :=
   | some i => i.kind.async
   | none => false
 
+/-- the identity of instrument `j` within its meter's instrument cache (meter.go: `instID` name, description, unit,
+kind; one cache per number type; one meter per scope) -/
+def instIdent (insts : List Inst) (j : Nat) : Option (Nat × Nat × Kind × Bool × Nat × Nat) :=
+  (insts[j]?).map fun i => (i.scope, i.name.getD j, i.kind, i.float, i.desc, i.unit)
+
+/-- does the callback given at the creation of observable instrument `j` run?  "If Int64ObservableCounter is invoked
+repeatedly with the same Name, Description, and Unit, only the first set of callbacks provided are used"
+(meter.go:128-163: the cached observable is returned, the new callbacks are not registered). -/
+def cbActive (insts : List Inst) (j : Nat) : Bool :=
+  isAsync insts j && !((List.range j).any fun j' => instIdent insts j' == instIdent insts j)
+
 /-- callbacks run in instrument creation order; each replays the observations of its instrument -/
 def Pipe.replay (p : Pipe) (insts : List Inst) (cur : List (Nat × CSet × Int)) : Pipe :=
   (List.range insts.length).foldl (fun p j =>
-    if isAsync insts j then
+    if cbActive insts j then
       cur.foldl (fun p o => if o.1 == j then p.measure j o.2.1 o.2.2 else p) p
     else p) p
 
@@ -494,6 +519,7 @@ def Sys.step (s : Sys) : Op → Sys
     else { s with pipes := s.pipes.map fun p => p.measure j a x }
   | .obs j a x => if isAsync s.insts j then { s with cur := s.cur ++ [(j, a, x)] } else s
   | .clear => { s with cur := [] }
+  | .create _ => s
   | .col r =>
     match s.pipes[r]? with
     | none => s
